@@ -30,6 +30,15 @@ MEMO_SLOTS = {"_sequence", "_single_interval_store", "_is_overlapping", "_strand
               # selects between two implementations of CDSInterval.extract_sequence that return the same Sequence
               # (kind obligation on extract_sequence + bounded clause 'cached-path-same-text')
               "_chunk_relative_codon_locations_cached"}
+# the accessor that owns each memo slot: the slot caches THAT accessor's value, so only the accessor (and the
+# constructors, which reset it) may write it.  A write anywhere else stores a value computed under other assumptions
+# (e.g. _combine_blocks deciding is_overlapping) and makes later answers depend on the call history.
+MEMO_OWNERS = {"_sequence": {"extract_sequence"}, "_single_interval_store": {"_single_intervals"},
+               "_is_overlapping": {"is_overlapping"}, "_strand_property": {"strand"},
+               "_alternative_sequence": {"alternative_genomic_sequence"},
+               "_alternative_genomic_sequence": {"alternative_genomic_sequence"},
+               "_parent_with_alternative_sequence": {"parent_with_alternative_sequence"},
+               "_chunk_relative_codon_locations_cached": {"chunk_relative_codon_locations"}}
 VALUE_EQ_ATTRS = {"parent", "location", "sequence", "chromosome_location", "chunk_relative_location", "_location"}
 SET_ATTRS_HINT = {"qualifiers", "feature_types", "variant_types", "identifiers", "children_guids"}
 
@@ -253,7 +262,10 @@ class FunctionAnalysis:
             ok = True
         elif root == "self" and isinstance(target, ast.Attribute) and how == "store" and isinstance(target.value, ast.Name) \
                 and target.attr in MEMO_SLOTS:
-            ok = True
+            ok = self.f.name in MEMO_OWNERS.get(target.attr, ())
+            if not ok:
+                reason = (f"memo slot {target.attr} written outside its owning accessor "
+                          f"{sorted(MEMO_OWNERS.get(target.attr, ()))}")
         elif v == SHALLOW and how in ("store", "del") and isinstance(target, ast.Subscript):
             ok = True  # storing a key into a fresh (shallow) container touches only the fresh container
         elif v == SHALLOW and how == "call":
